@@ -54,6 +54,7 @@ func c06(args []string) error {
 	if err != nil {
 		return err
 	}
+	rows = append(rows, composedDocs(rows)...)
 	seed, nrender := atoi(args[2]), atoi(args[3])
 	ev, err := newEvents(args[1] + "/c06.events.ndjson")
 	if err != nil {
@@ -204,4 +205,40 @@ func c06(args []string) error {
 	}
 	printJSON(obj{"zero_sign_cases": zeroCases, "zero_sign_mismatches": zeroBad, "docs": len(rows), "parses_accepted": accepted, "round_trips_recorded": trips, "events": ev.N})
 	return nil
+}
+
+// composedDocs: every accepted Point / Polygon document (the two types whose representation depends on the options)
+// once more as the geometry of a Feature, twice in a GeometryCollection and as a Feature in a FeatureCollection: a
+// writer that is right for a top-level object can be wrong for the same object inside another one.
+func composedDocs(rows []docRow) []docRow {
+	str := func(v string) AST { return AST{Tag: "s", S: v} }
+	object := func(keys []string, items []AST) AST { return AST{Tag: "o", Keys: keys, Items: items} }
+	var out []docRow
+	for _, r := range rows {
+		if r.verdict != "acc" || r.ast.Tag != "o" {
+			continue
+		}
+		typ := ""
+		for i, k := range r.ast.Keys {
+			if k == "type" && r.ast.Items[i].Tag == "s" {
+				typ = r.ast.Items[i].S
+			}
+		}
+		if typ != "Point" && typ != "Polygon" {
+			continue
+		}
+		feature := object([]string{"type", "geometry", "properties"}, []AST{str("Feature"), r.ast, object(nil, nil)})
+		for _, w := range []AST{
+			feature,
+			object([]string{"type", "geometries"}, []AST{str("GeometryCollection"), {Tag: "a", Items: []AST{r.ast, r.ast}}}),
+			object([]string{"features", "type"}, []AST{{Tag: "a", Items: []AST{feature}}, str("FeatureCollection")}),
+		} {
+			raw, err := json.Marshal(w.JSON())
+			if err != nil {
+				continue
+			}
+			out = append(out, docRow{b: r.b, ast: w, rawAST: raw, verdict: "acc"})
+		}
+	}
+	return out
 }
